@@ -15,10 +15,14 @@ Proved here, for all grids, atoms, weights and integer shifts:
 * finite projection (numba kernel): the pixels touched by an atom move with it and the distances at which the radial
   function is evaluated do not change (`radial_hits_shift`, unclipped part).
 * the delta array of an `R₀ × R₁` supercell is the `np.tile` of the unit-cell delta array (`deltas_tile`).
-Partial: supercell repetition of the *potential* (the multiplier step; `…_partial` at the end).
+* end to end on the concrete 2-D DFT (`Lib/DFT2.zmodPair2`): `infinite_projection_pixel_shift` (Σ_species Re F₂⁻¹(m_s·F₂ δ_s) of the
+  translated atoms is the rolled slice) and `infinite_projection_slice_sum` (slice sum = DC symbol × total weight);
+* `tiled_potential` (abstract pairs for the two grids, sub-lattice hypotheses) for the supercell potential.
+Partial: supercell repetition of the *potential* (two FFT/sampling hypotheses; `…_partial` at the end).
 -/
 import AbtemVerif.Model.Deltas
 import AbtemVerif.Lib.DFT
+import AbtemVerif.Lib.DFT2
 import Mathlib.Data.Rat.Floor
 import Mathlib.Algebra.Order.Floor.Ring
 import Mathlib.Tactic.Ring
@@ -472,14 +476,138 @@ theorem deltas_tile (n0 n1 R0 R1 : Nat) (h0 : 0 < n0) (h1 : 0 < n1) (hR0 : 0 < R
   simp only [accumulate, List.map_map]
   first | done | (congr 1)
 
+/-! ### end to end on the concrete 2-D DFT, and the tiled potential -/
+section EndToEnd
+open ZMod
+variable {n m : ℕ} [NeZero n] [NeZero m]
+
+/-- shift rule of the separable 2-D DFT: a periodic roll by `a` multiplies coefficient `k` by `e(-a₁k₁/n) e(-a₂k₂/m)` -/
+theorem zmod2_shift_rule (a : ZMod n × ZMod m) (x : ZMod n × ZMod m → ℂ) (k : ZMod n × ZMod m) :
+    (zmodPair2 n m).F (fun j => x (j - a)) k
+      = (stdAddChar (-(a.1 * k.1)) * stdAddChar (-(a.2 * k.2))) * (zmodPair2 n m).F x k := by
+  show (alongFst (zmodPair n).F) ((alongSnd (zmodPair m).F) (fun j => x (j - a))) k
+     = _ * (alongFst (zmodPair n).F) ((alongSnd (zmodPair m).F) x) k
+  simp only [alongFst, alongSnd, LinearMap.coe_mk, AddHom.coe_mk]
+  have h2 : ∀ i : ZMod n, (zmodPair m).F (fun j => x ((i, j) - a)) k.2
+      = stdAddChar (-(a.2 * k.2)) * (zmodPair m).F (fun j => x (i - a.1, j)) k.2 := by
+    intro i
+    have := zmod_shift_rule a.2 (fun j => x (i - a.1, j)) k.2
+    have e : (fun j => x ((i, j) - a)) = fun j => x (i - a.1, j - a.2) := by
+      funext j; rfl
+    rw [e]; exact this
+  simp only [h2]
+  have h1 := zmod_shift_rule a.1 (fun i => (zmodPair m).F (fun j => x (i, j)) k.2) k.1
+  have e : (fun i => stdAddChar (-(a.2 * k.2)) * (zmodPair m).F (fun j => x (i - a.1, j)) k.2)
+      = stdAddChar (-(a.2 * k.2)) • (fun i => (zmodPair m).F (fun j => x (i - a.1, j)) k.2) := by
+    funext i; simp
+  rw [e, _root_.map_smul, Pi.smul_apply, smul_eq_mul, h1]
+  ring
+
+/-- every Fourier multiplier of the 2-D DFT commutes with every periodic 2-D roll -/
+theorem zmod2_multiplier_roll (a : ZMod n × ZMod m) (μ x : ZMod n × ZMod m → ℂ) :
+    (zmodPair2 n m).mult μ (fun j => x (j - a)) = fun j => (zmodPair2 n m).mult μ x (j - a) :=
+  multiplier_equivariant (zmodPair2 n m) (fun x j => x (j - a))
+    (fun k => stdAddChar (-(a.1 * k.1)) * stdAddChar (-(a.2 * k.2))) (fun x k => zmod2_shift_rule a x k) μ x
+
+/-- the array written by `superpose_deltas` as a function on the periodic `n × m` pixel grid -/
+noncomputable def deltaArray (n m : ℕ) [NeZero n] [NeZero m] (atoms : List ((Rat × Rat) × Rat)) : ZMod n × ZMod m → ℂ :=
+  fun p => ((superposeDeltas n m false atoms (p.1.val : ℤ) (p.2.val : ℤ) : ℚ) : ℂ)
+
+/-- all atoms translated by `(a, b)` whole pixels -/
+def translate (a b : ℤ) (atoms : List ((Rat × Rat) × Rat)) : List ((Rat × Rat) × Rat) :=
+  atoms.map fun at_ => ((at_.1.1 + a, at_.1.2 + b), at_.2)
+
+lemma val_sub_intCast (N : ℕ) [NeZero N] (p : ZMod N) (a : ℤ) :
+    (((p - (a : ZMod N)).val : ℕ) : ℤ) = ((p.val : ℤ) - a) % (N : ℤ) := by
+  have hp : p = (((p.val : ℤ)) : ZMod N) := by simp
+  conv_lhs => rw [hp, ← Int.cast_sub, ZMod.val_intCast]
+
+/-- `deltas_pixel_shift` on the periodic grid: translating the atoms rolls the delta array -/
+theorem deltaArray_translate (a b : ℤ) (atoms : List ((Rat × Rat) × Rat)) :
+    deltaArray n m (translate a b atoms) = fun p => deltaArray n m atoms (p - ((a : ZMod n), (b : ZMod m))) := by
+  funext p
+  unfold deltaArray translate
+  have hn : 0 < n := Nat.pos_of_ne_zero (NeZero.ne n)
+  have hm : 0 < m := Nat.pos_of_ne_zero (NeZero.ne m)
+  have h := deltas_pixel_shift n m hn hm atoms a b (p.1.val : ℤ) (p.2.val : ℤ)
+    ⟨by positivity, by exact_mod_cast ZMod.val_lt p.1⟩ ⟨by positivity, by exact_mod_cast ZMod.val_lt p.2⟩
+  rw [h]
+  unfold roll
+  simp only [Prod.fst_sub, Prod.snd_sub, val_sub_intCast]
+
+/-- `infinite_projection_pixel_shift`: end to end, for the concrete 2-D DFT.  The infinite-projection slice is
+`Σ_species Re F₂⁻¹( m_s · F₂ δ_s )` with `δ_s` the array `superpose_deltas` writes for the atoms of species `s` and `m_s` any
+symbol (scattering factor / sinc).  Translating every atom by `(a, b)` whole pixels — any distance — rolls the slice by
+`(a, b)` with periodic wrap, for every grid, species list, atom list, weights and symbols. -/
+theorem infinite_projection_pixel_shift (species : List ((ZMod n × ZMod m → ℂ) × List ((Rat × Rat) × Rat))) (a b : ℤ)
+    (p : ZMod n × ZMod m) :
+    (species.map fun s => ((zmodPair2 n m).mult s.1 (deltaArray n m (translate a b s.2)) p).re).sum
+      = (species.map fun s => ((zmodPair2 n m).mult s.1 (deltaArray n m s.2) (p - ((a : ZMod n), (b : ZMod m)))).re).sum := by
+  congr 1
+  apply List.map_congr_left
+  intro s _
+  rw [deltaArray_translate, zmod2_multiplier_roll]
+
+lemma sum_zmod_val (N : ℕ) [NeZero N] (f : ℕ → ℂ) : ∑ p : ZMod N, f p.val = ∑ i ∈ range N, f i := by
+  obtain ⟨k, rfl⟩ : ∃ k, N = k + 1 := ⟨N - 1, by have := Nat.pos_of_ne_zero (NeZero.ne N); omega⟩
+  exact Fin.sum_univ_eq_sum_range f (k + 1)
+
+/-- the sum of the delta array over the periodic grid is the sum of the weights -/
+theorem deltaArray_sum (atoms : List ((Rat × Rat) × Rat)) :
+    ∑ p, deltaArray n m atoms p = (((atoms.map (·.2)).sum : ℚ) : ℂ) := by
+  have hn : 0 < n := Nat.pos_of_ne_zero (NeZero.ne n)
+  have hm : 0 < m := Nat.pos_of_ne_zero (NeZero.ne m)
+  rw [← deltas_total_mass n m hn hm false atoms, Fintype.sum_prod_type]
+  unfold deltaArray
+  rw [sum_zmod_val n (fun i => ∑ q : ZMod m, ((superposeDeltas n m false atoms (i : ℤ) (q.val : ℤ) : ℚ) : ℂ))]
+  push_cast
+  apply Finset.sum_congr rfl; intro i _
+  rw [sum_zmod_val m (fun j => ((superposeDeltas n m false atoms (i : ℤ) (j : ℤ) : ℚ) : ℂ))]
+
+/-- `slice_mean_subpixel_invariant`, end to end: the sum (hence the mean) of a species' contribution `F₂⁻¹(μ · F₂ δ)` to an
+infinite-projection slice is the DC symbol times the total weight — it does not depend on where the atoms sit. -/
+theorem infinite_projection_slice_sum (μ : ZMod n × ZMod m → ℂ) (atoms : List ((Rat × Rat) × Rat)) :
+    ∑ p, (zmodPair2 n m).mult μ (deltaArray n m atoms) p = μ (0, 0) * (((atoms.map (·.2)).sum : ℚ) : ℂ) := by
+  rw [multiplier_sum (zmodPair2 n m) (0, 0) (zmodPair2_hasDC n m).dc, deltaArray_sum]
+
+section Tiled
+variable {ι κ : Type*} [Fintype ι] [Fintype κ]
+
+/-- `tiled_potential`: two grids (unit cell `ι`, supercell `κ`) with their transform pairs; `tile` repeats an array of the unit
+cell over the supercell and `sub K` is the unit-cell frequency index of supercell frequency `K` when `K` lies on the
+sub-lattice.  Hypotheses: (hT) a tiled array only has Fourier coefficients on the sub-lattice, where they are `c` times the
+unit-cell coefficients (true for the DFT with `c` = number of repetitions; validated numerically by the harness);
+(hM) the symbol sampled on the finer reciprocal grid agrees with the unit-cell symbol on the sub-lattice (same physical
+frequency; validated on the real scattering factors).  Then the multiplier applied to the tiled deltas is the tiled
+unit-cell result: with `deltas_tile`, the infinite-projection potential of the supercell is the tiled potential. -/
+theorem tiled_potential (P : FourierPair ι) (Q : FourierPair κ) (tile : (ι → ℂ) → (κ → ℂ)) (sub : κ → Option ι) (c : ℂ)
+    (hT : ∀ x K, Q.F (tile x) K = match sub K with | some k => c * P.F x k | none => 0)
+    (μ : ι → ℂ) (M : κ → ℂ) (hM : ∀ K k, sub K = some k → M K = μ k) (δ : ι → ℂ) :
+    Q.mult M (tile δ) = tile (P.mult μ δ) := by
+  have hinj : ∀ u v : κ → ℂ, Q.F u = Q.F v → u = v := by
+    intro u v h; rw [← Q.inv_left u, ← Q.inv_left v, h]
+  apply hinj
+  funext K
+  unfold FourierPair.mult
+  rw [Q.inv_right, hT, hT]
+  cases hs : sub K with
+  | none => simp
+  | some k =>
+    simp only
+    rw [P.inv_right, hM K k hs]; ring
+end Tiled
+end EndToEnd
+
 /- Full statement for supercell repetition (not proved as a whole): the potential of the `R₀ × R₁` repeated cell on
    the `R₀ n₀ × R₁ n₁` grid equals `np.tile` of the unit-cell potential, for both projections, and `CrystalPotential`
    yields the same slices.
    Proved: the delta array of the supercell is the tiled delta array of the unit cell (`deltas_tile`: exactly one of the
    `R₀ R₁` copies of every update reaches each pixel of the big grid), and `tile` is periodic with the unit cell.
-   Missing: that the multiplier sampled on the finer reciprocal grid of the supercell reproduces the unit-cell
-   multiplier on the sub-lattice (needs the sampled scattering factor: a tiled array only has Fourier coefficients on the
-   sub-lattice, where the two samplings of `f/sinc` must agree), `pad_atoms` images for finite projections, and the slice bookkeeping of
+   Also proved (`tiled_potential`): for any two transform pairs, IF a tiled array only has Fourier coefficients on the
+   sub-lattice (`hT`, the DFT fact) and the symbol sampled on the finer reciprocal grid agrees with the unit-cell symbol there
+   (`hM`), the multiplier of the tiled deltas is the tiled unit-cell result.  `hT` and `hM` are hypotheses: validated on
+   numpy's fft2 and on the real `get_scattering_factor / sinc` by the conformance oracle, not proved for `ZMod.dft`.
+   Missing: those two hypotheses as theorems, `pad_atoms` images for finite projections, and the slice bookkeeping of
    `CrystalPotential.generate_slices` (C10).  These are checked by the conformance oracle only. -/
 theorem supercell_tile_partial (n0 n1 : Nat) (v : Int → Int → Rat) (i j r0 r1 : Int) :
     tile n0 n1 v (i + r0 * n0) (j + r1 * n1) = tile n0 n1 v i j := by
